@@ -502,7 +502,7 @@ int main(void)
     VASSERTM(same(), "chain_sorted: each item after its equals, ring order kept among equal items (stability)");
     VASSERTM(unlocked(), "chain_sorted: lock released");
     { int eq = 0; for (int k = 0; k < NL; k++) if (k < n && prio[ord[k]] == prio[rord[0]]) eq = 1;
-      w1 = (n >= 2 && m == NR && eq && prio[rord[0]] == prio[rord[1]]); w2 = (n == 0 && m >= 2 && prio[rord[0]] < prio[rord[1]]);
+      w1 = (n >= 1 && m >= 2 && eq && prio[rord[0]] == prio[rord[1]]); w2 = (n == 0 && m >= 2 && prio[rord[0]] < prio[rord[1]]);
       w3 = (n >= 1 && m == NR && prio[rord[0]] > prio[rord[1]] && prio[rord[1]] < prio[rord[2 < NR ? 2 : 0]]); }
 #define W1 "chain_sorted: ring with equal items meeting equal list items"
 #define W2 "chain_sorted: ascending ring into the empty list"
